@@ -8,16 +8,54 @@ from fractions import Fraction
 import numpy as np
 
 import genmodel as gm
+import c24_approx as aq
 from common import Property, rat, unrat, Infra
 
 RTOL = 1e-9
+
+
+def install_approx_log():
+    """Wrap Component._add_approximations so that every call is logged (what was declared, which
+    methods had a scheme before, which wrt were relevant, which approximations exist afterwards).
+    Returns (log, restore)."""
+    from openmdao.core.component import Component
+    orig_add = Component._add_approximations
+    approx_log = {}
+
+    def logged_add(comp, use_relevance=True):
+        # one line of the operation log the Lean model (`approxStep`/`approxQuery`) is run on
+        live = list(comp._approx_schemes)
+        orig_add(comp, use_relevance)
+        try:
+            explicit = hasattr(comp, 'compute')
+            decls = [[of, wrt, meta['method']] for (of, wrt), meta in comp._subjacs_info.items()
+                     if meta.get('method') in ('fd', 'cs') and
+                     (not explicit or comp._inputs._contains_abs(wrt))]
+            rel = comp._relevance
+            linslv = comp.linear_solver
+            if use_relevance and (linslv is None or linslv.use_relevance()):
+                with rel.all_seeds_active():
+                    relevant = sorted({w for _, w, _ in decls if rel.is_relevant(w)})
+            else:
+                relevant = sorted({w for _, w, _ in decls})
+            after = {m: sorted(sch._wrt_meta) for m, sch in comp._approx_schemes.items()}
+            approx_log.setdefault(comp.pathname, []).append(
+                {'decls': decls, 'live': live, 'relevant': relevant, 'after': after})
+        except Exception as e:     # the log must never change the run
+            approx_log.setdefault(comp.pathname, []).append({'log_error': repr(e)[:200]})
+    Component._add_approximations = logged_add
+
+    def restore():
+        Component._add_approximations = orig_add
+    return approx_log, restore
 
 
 class C24(Property):
     pid = 'C24'
     workers = 8
     tolerance = RTOL
-    required_theorems = ['C24_irrelevant_zero', 'C24_skip_unreachable', 'C24_response_unchanged']
+    required_theorems = ['C24_irrelevant_zero', 'C24_skip_unreachable', 'C24_response_unchanged',
+                         'C24_approx_history_independent', 'C24_approx_complete', 'C24_approx_sound']
     rule = ("cases: random models from harness/genmodel.py (explicit, matrix-free and implicit "
             "components with several coupled outputs, nested groups, optional converging cycle) with "
             "1-2 design variables and 1-3 responses chosen among many outputs, so that parts of the "
@@ -25,8 +63,18 @@ class C24(Property):
             "relevance enabled and with openmdao.utils.relevance._no_relevance=True under the same "
             "solver configuration: responses, compute_totals (fwd/rev, per response and all at once) "
             "and, for a quarter of the cases, a 3-iteration SLSQP run with group_by_pre_opt_post are "
-            "compared. Non-trivial: some output variable is reported irrelevant for some seed pair; "
-            "distinct by (seed, configuration).")
+            "compared, then compute_totals for of/wrt other than the driver's (asked after the "
+            "declared ones). Further families: restarted GMRES; assembled jacobians (csc/dense) at "
+            "the root and in sub-groups; sub-groups using approx_totals "
+            "(semi-totals) and components with cs partials; and `approx_seq` (harness/c24_approx.py): "
+            "one explicit or implicit component whose partials are declared pair by pair as analytic, "
+            "fd or cs, in a star model, with a history of 3-6 compute_totals calls of random of/wrt, "
+            "each compared with the exact derivative with relevance on and off. Every call of "
+            "Component._add_approximations made during a relevance-enabled run is logged (declared "
+            "approximated partials, methods holding a scheme before, relevant wrt, approximations "
+            "set up) and the history replayed on the Lean model. Non-trivial: some output variable "
+            "is reported irrelevant for some seed pair (approx_seq: some approximated wrt irrelevant "
+            "in some call); distinct by (seed, configuration).")
     assumptions = ["results compared at 1e-9 relative (1e-6 with iterative solvers), widened to "
                    "1e-14 x cond(dR/du) for ill-conditioned generated systems",
                    "relevance is switched through the module flag read by Relevance.__init__",
@@ -38,12 +86,19 @@ class C24(Property):
                   "proved in Lean, for every weight matrix, seed and keep-set, that variables not "
                   "reachable from the seeds have zero solution, that skipping them changes nothing, and "
                   "that keeping only (reachable from the seeds) ∩ (able to influence the response) "
-                  "leaves the response's value unchanged. The real Relevance object is tied by comparing "
+                  "leaves the response's value unchanged. For the fd/cs approximations of a component "
+                  "it is proved, for every list of declared partials, every history of earlier calls "
+                  "and every starting state, that what a call approximates depends on the current "
+                  "relevance only (C24_approx_history_independent), covers every relevant declared "
+                  "partial (C24_approx_complete) and nothing irrelevant (C24_approx_sound); the pinned "
+                  "snapshot's variant is in the model with a proved counterexample. "
+                  "The real Relevance object is tied by comparing "
                   "its per-seed-pair relevant sets with the model's (they must contain them) and by "
                   "running every generated model with relevance on and off and comparing responses, "
                   "totals and optimizer iterates, plus the exact rational Jacobian.")
-    level_note = ("full for DAG models at the level of the model; cyclic models and the framework's own "
-                  "graph construction are covered only differentially.")
+    level_note = ("full for DAG models at the level of the model; cyclic models, group-level (semi-total) "
+                  "approximations and the framework's own graph construction are covered only "
+                  "differentially.")
     technique = "Lean 4 proof (strong induction on execution order) + relevance on/off differential runs"
 
     def cases(self, rng, tier):
@@ -62,6 +117,41 @@ class C24(Property):
                            'nonlinear': 'nlbgs' if cyc else None, 'jac': None,
                            'partials': rng.choice(['matfree', 'matfree', None]),
                            'krylov_restart': rng.choice([3, 4, 6, 8]), 'driver': False}}
+        # family: semi-total derivatives (approx_totals on the sub-groups) and components with
+        # fd/cs-approximated partials: which approximations are carried out is chosen by relevance,
+        # and the choice made for one compute_totals must not survive into the next one
+        for _ in range(8 if tier == 'quick' else 150):
+            sub_approx = rng.choice(['cs', 'cs', None])
+            # (a group that approximates its own jacobian treats its outputs as explicit functions
+            # of its inputs, so no implicit components there)
+            yield {'gen_seed': rng.randrange(10 ** 9),
+                   'opts': {'safe_indices': True, 'implicit': (not sub_approx) and rng.random() < 0.7,
+                            'n_comps': (4, 8), 'cycles': False},
+                   'cfg': {'mode': rng.choice(['fwd', 'rev']),
+                           'linear': rng.choice([None, 'runonce', 'direct', 'lbgs']),
+                           'sub_linear': None, 'nonlinear': None, 'jac': None,
+                           # (a DirectSolver above an approximating group that holds matrix-free
+                           # components reports a singular jacobian with and without relevance)
+                           'partials': rng.choice(['cs', 'dense']) if sub_approx
+                           else rng.choice([None, None, 'cs']),
+                           'sub_approx': sub_approx, 'driver': False}}
+        # family: assembled jacobians (csc / dense) at the root and in the sub-groups: the matrix is
+        # assembled from the sub-jacobians that relevance kept for the current compute_totals
+        for _ in range(8 if tier == 'quick' else 200):
+            cyc = rng.random() < 0.2
+            yield {'gen_seed': rng.randrange(10 ** 9),
+                   'opts': {'safe_indices': True, 'implicit': rng.random() < 0.6,
+                            'n_comps': (3, 7), 'cycles': 'converging' if cyc else False},
+                   'cfg': {'mode': rng.choice(['fwd', 'rev']),
+                           'linear': rng.choice(['direct_asm', 'direct_asm', 'krylov']),
+                           'sub_linear': rng.choice([None, None, 'direct_asm']),
+                           'nonlinear': rng.choice(['nlbgs', 'newton']) if cyc else None,
+                           'jac': rng.choice(['csc', 'dense']),
+                           'partials': rng.choice([None, 'dense', 'cs']), 'driver': False}}
+        # family: one component with a mix of analytic / fd / cs partials and a history of
+        # compute_totals calls with varying of/wrt (harness/c24_approx.py)
+        for _ in range(12 if tier == 'quick' else 400):
+            yield {'kind': 'approx_seq', 'gen_seed': rng.randrange(10 ** 9)}
         for _ in range(n):
             cyc = rng.random() < 0.25
             cfg = {'mode': rng.choice(['fwd', 'rev']),
@@ -92,6 +182,7 @@ class C24(Property):
         import openmdao.utils.relevance as R
         saved = R._no_relevance
         R._no_relevance = bool(no_rel)
+        approx_log, restore_add = install_approx_log()
         try:
             res = {}
             v = copy.deepcopy(voi)
@@ -139,9 +230,11 @@ class C24(Property):
                             relv[r['name'] + '|' + d['name']] = {
                                 n: bool(rel.is_relevant(n)) for n in a2m if not n.startswith('_auto_ivc')}
                 res['relevant'] = relv
+                res['approx_log'] = approx_log
             return res
         finally:
             R._no_relevance = saved
+            restore_add()
 
     def _run_driver(self, md, voi, cfg, no_rel):
         import openmdao.api as om
@@ -178,7 +271,58 @@ class C24(Property):
         finally:
             R._no_relevance = saved
 
+    # -- family approx_seq ------------------------------------------------------------------------
+    def _aq_run_impl(self, case):
+        spec = aq.gen(case['gen_seed'])
+        res = {}
+
+        def wrap(body):
+            log, restore = install_approx_log()
+            try:
+                return body(), log
+            finally:
+                restore()
+        try:
+            res['off'] = {'Js': aq.run(spec, True, wrap)[0]}
+            Js, log = aq.run(spec, False, wrap)
+            res['on'] = {'Js': Js, 'approx_log': log}
+        except Exception as e:
+            res['error'] = type(e).__name__
+            res['msg'] = str(e)[:300]
+        return res
+
+    def _aq_oracle(self, case, impl):
+        if 'error' in impl:
+            return {'what': 'approx_seq: setup/run_model/compute_totals raised %s' % impl['error'],
+                    'msg': impl.get('msg')}
+        spec = aq.gen(case['gen_seed'])
+        for k, q in enumerate(spec['hist']):
+            ex = aq.expected(spec, q)
+            for key in ('off', 'on'):
+                if not self._close(impl[key]['Js'][k], ex, 1e-6):
+                    return {'what': 'approx_seq: compute_totals differs from the exact derivative '
+                                    'with relevance %s' % ('enabled' if key == 'on' else 'disabled'),
+                            'query': k, 'got': impl[key]['Js'][k], 'exact': ex}
+        return None
+
+    def _aq_bucket(self, case, impl):
+        spec = aq.gen(case['gen_seed'])
+        b = ['approx_seq', 'approx_seq_implicit' if spec['implicit'] else 'approx_seq_explicit',
+             'approx_seq_hist_len=%d' % len(spec['hist']), 'approx_seq_linear=%s' % spec['linear'],
+             'approx_seq_methods=%s' % '+'.join(sorted(set(spec['meth'].values())))]
+        for comp, calls in impl.get('on', {}).get('approx_log', {}).items():
+            b.append('approx_history_compared_with_model')
+            b.append('approx_seq_calls=%d' % len(calls))
+            if any(not c.get('after') for c in calls[:-1]) and any(c.get('after') for c in calls[1:]):
+                b.append('approx_scheme_emptied_then_needed_again')
+            if any(len(c.get('after', {})) == 1 for c in calls) and \
+                    any(len(c.get('after', {})) == 2 for c in calls):
+                b.append('approx_seq_one_of_two_schemes_dropped_and_back')
+        return b
+
     def run_impl(self, case):
+        if case.get('kind') == 'approx_seq':
+            return self._aq_run_impl(case)
         md, voi = self._md(case)
         res = {}
         try:
@@ -189,8 +333,22 @@ class C24(Property):
                         res[key] = self._run(md, voi, case['cfg'], no_rel)
                     except Exception as e:
                         if type(e).__name__ != 'AnalysisError':
-                            raise
+                            if not case['cfg'].get('sub_approx'):
+                                raise
+                            res[key + '_error'] = type(e).__name__ + ': ' + str(e)[:200]
+                            continue
                         res[key + '_analysis_error'] = str(e)[:200]
+                if case['cfg'].get('sub_approx') and res.get('on_error') and \
+                        res.get('on_error') == res.get('off_error'):
+                    # the same rejection with and without relevance (e.g. a design variable whose
+                    # source lies inside an approximating group): nothing to compare
+                    res['error'] = 'AnalysisError'
+                    res['rejected_both'] = res['on_error']
+                    return res
+                if 'on_error' in res or 'off_error' in res:
+                    raise RuntimeError('relevance %s: %s' % (
+                        'enabled' if 'on_error' in res else 'disabled',
+                        res.get('on_error') or res.get('off_error')))
                 if 'on' not in res and 'off' in res:
                     # ScipyKrylov reported non-convergence only with relevance enabled (scipy's gmres
                     # returns info > 0 after an exact breakdown on the pruned, singular operator, and
@@ -238,6 +396,8 @@ class C24(Property):
         return bool(np.all(np.abs(a - b) <= tol * sc))
 
     def oracle(self, case, impl):
+        if case.get('kind') == 'approx_seq':
+            return self._aq_oracle(case, impl)
         md, voi = self._md(case)
         tol = self._tol(case)
         if impl.get('error') == 'AnalysisError':
@@ -269,6 +429,8 @@ class C24(Property):
         return None
 
     def signature(self, case, impl, failure):
+        if case.get('kind') == 'approx_seq':
+            return {'what': failure.get('what'), 'family': 'approx_seq'}
         sig = {'what': failure.get('what'), 'linear': case['cfg']['linear'],
                'mode': case['cfg']['mode'],
                'sub_krylov': case['cfg'].get('sub_linear') == 'krylov'}
@@ -285,16 +447,21 @@ class C24(Property):
         return sig
 
     def nontrivial(self, case, impl):
+        if case.get('kind') == 'approx_seq':
+            return any(set(c.get('relevant', [])) != {w for _, w, _ in c.get('decls', [])}
+                       for calls in impl.get('on', {}).get('approx_log', {}).values() for c in calls)
         rel = impl.get('on', {}).get('relevant', {})
         return any(not v for d in rel.values() for v in d.values())
 
     def bucket(self, case, impl):
+        if case.get('kind') == 'approx_seq':
+            return self._aq_bucket(case, impl)
         md, voi = self._md(case)
         cfg = case['cfg']
         b = ['solver_reported_failure' if impl.get('error') == 'AnalysisError' else
              'krylov_reported_nonconvergence_only_with_relevance(values compared)'
              if impl.get('on_reported_nonconvergence') else 'impl_error' if 'error' in impl else 'impl_ok', 'cyclic' if md.get('cyclic') else 'acyclic']
-        for k in ('mode', 'linear', 'nonlinear', 'partials'):
+        for k in ('mode', 'linear', 'nonlinear', 'partials', 'jac'):
             b.append('%s=%s' % (k, cfg[k]))
         if any(c['kind'] == 'implicit' and len(c['outs']) > 1 for c in md['comps']):
             b.append('implicit_with_coupled_outputs')
@@ -302,6 +469,12 @@ class C24(Property):
             b.append('driver_run_compared')
         if 'drv_error' in impl:
             b.append('driver_run_error')
+        if cfg.get('sub_approx'):
+            b.append('semi_total_groups')
+        for comp, calls in impl.get('on', {}).get('approx_log', {}).items():
+            b.append('approx_history_compared_with_model')
+            if any(not c.get('after') for c in calls[:-1]) and any(c.get('after') for c in calls[1:]):
+                b.append('approx_scheme_emptied_then_needed_again')
         rel = impl.get('on', {}).get('relevant', {})
         for d in rel.values():
             b.append('pair_with_irrelevant_vars' if any(not v for v in d.values())
@@ -319,9 +492,13 @@ class C24(Property):
                     [off[(d['ci'], d['oname'])] + q for q in dpos]
 
     def model_requests(self, case, impl):
+        if case.get('kind') == 'approx_seq':
+            return [] if 'error' in impl else [r for _, r, _ in self._approx_requests(impl)]
         md, voi = self._md(case)
-        if 'error' in impl or md.get('cyclic'):
+        if 'error' in impl:
             return []
+        if md.get('cyclic'):
+            return [r for _, r, _ in self._approx_requests(impl)]
         A, off, n = gm._linearised(md)
         W = []
         for k in range(n):
@@ -342,10 +519,53 @@ class C24(Property):
                     seed = ["0/1"] * n
                     seed[dd] = "1/1"
                     reqs.append({'op': 'relevance', 'n': n, 'W': W, 'seed': seed, 'r': rr})
-        return reqs
+        return reqs + [r for _, r, _ in self._approx_requests(impl)]
+
+    METHOD_ID = {'fd': 1, 'cs': 2}
+
+    def _approx_requests(self, impl):
+        """One `approx_seq` request per component that went through `_add_approximations`: the
+        history of calls (relevant wrt per call) logged from the real run with relevance enabled.
+        Yields (component, request, variable names by id)."""
+        out = []
+        for comp, calls in sorted(impl.get('on', {}).get('approx_log', {}).items()):
+            if any('log_error' in c for c in calls):
+                raise Infra('approximation log failed: %s' % [c for c in calls if 'log_error' in c][:1])
+            decls = calls[0]['decls']
+            if any(c['decls'] != decls for c in calls):
+                raise Infra('declared approximated partials changed between calls in %s' % comp)
+            names = sorted({n for of, wrt, _ in decls for n in (of, wrt)})
+            vid = {n: i for i, n in enumerate(names)}
+            out.append((comp, {'op': 'approx_seq', 'fixed': True,
+                               'decls': [[vid[of], vid[wrt], self.METHOD_ID[m]] for of, wrt, m in decls],
+                               'live0': [self.METHOD_ID[m] for m in calls[0]['live']],
+                               'rels': [[vid[w] for w in c['relevant']] for c in calls]}, names))
+        return out
+
+    def _compare_approx(self, impl, answers):
+        reqs = self._approx_requests(impl)
+        if not reqs:
+            return None
+        mname = {v: k for k, v in self.METHOD_ID.items()}
+        for (comp, req, names), ans in zip(reqs, answers[len(answers) - len(reqs):]):
+            calls = impl['on']['approx_log'][comp]
+            for k, (call, step) in enumerate(zip(calls, ans['steps'])):
+                model = {mname[m]: sorted(names[w] for w in wrts) for m, wrts in step}
+                if model != call['after']:
+                    return ('%s: approximations set up by call %d of _add_approximations differ from '
+                            'the model (history-independent choice): code %s, model %s, relevant %s, '
+                            'live before %s' % (comp, k, call['after'], model, call['relevant'],
+                                                call['live']))
+        return None
 
     def compare(self, case, impl, answers):
+        if case.get('kind') == 'approx_seq':
+            return None if 'error' in impl or not answers else self._compare_approx(impl, answers)
         md, voi = self._md(case)
+        if 'error' not in impl and answers:
+            d = self._compare_approx(impl, answers)
+            if d:
+                return d
         if md.get('cyclic') or not answers:
             return None
         off, aoff, n = gm.flat_layout(md)
